@@ -26,6 +26,7 @@ META = {
         "write_frame and _write."
     ),
 }
+META["explanation"] += " C11.R3 identifies the limiter's statements by dataflow roles. C11.R6: no stale read-modify-write of a bucket variable across an await; every refill is paired with an update of its time stamp on all paths (serial and MQTT)."
 
 T = "ramses_tx.transport"
 
